@@ -233,7 +233,12 @@ class MibCompiler(object):
                 try:
                     fileInfo, fileData = source.getData(mibname)
 
-                    for mibTree in self._parser.parse(fileData):
+                    mibTrees = self._parser.parse(fileData)
+
+                    if not mibTrees:
+                        raise error.PySmiError('no MIB module found in %s' % fileInfo.path)
+
+                    for mibTree in mibTrees:
                         mibInfo, symbolTable = self._symbolgen.genCode(
                             mibTree, symbolTableMap
                         )
